@@ -506,7 +506,46 @@ def wfFields : Flds → Store → Bool
   | .cons name ty d rest, st => wf ty (getField st name ty d) && !rest.hasName name && wfFields rest st
 end
 
+mutual
+/-- the values on which the code *as it is* reports the length it produced: no empty `char`, no fixed string longer than its
+    width anywhere in the value (see `Witness/C01.lean` for what happens otherwise).  Values that do not encode at all are
+    left unconstrained. -/
+def lenSafe : Ty → Val → Bool
+  | .char _, v => match v with
+      | .str cs => !cs.isEmpty
+      | _ => true
+  | .fixed _ n _, v => match v with
+      | .str cs => decide (cs.length ≤ n)
+      | _ => true
+  | .record fs, v => match v with
+      | .recd st => lenSafeF fs st
+      | _ => true
+  | .optrec fs, v => match v with
+      | .recd st => lenSafeF fs st
+      | _ => true
+  | .arr (.optrec fs) _ _ _, v => match v with
+      | .list xs => xs.all fun x => match x with
+          | .recd st => lenSafeF fs st
+          | _ => true
+      | _ => true
+  | .arr elem _ _ _, v => match v with
+      | .list xs => xs.all fun x => lenSafe elem x
+      | .str cs => cs.all fun c => lenSafe elem (.str [c])
+      | _ => true
+  | _, _ => true
+def lenSafeF : Flds → Store → Bool
+  | .nil, _ => true
+  | .cons name ty d rest, st => lenSafe ty (getField st name ty d) && lenSafeF rest st
+end
+
 /-- a message the registry resolves: indicator fits the id byte, body well formed -/
 def wfMsg (m : MsgDef) (record : Val) : Bool := decide (m.ind < 256) && wf (.record m.fs) record
+
+/-! ### `parser.py`: the count type of an array field -/
+
+/-- `FieldDef._field_context`: `endian = 'uint_2_be' if self.endian == 'big' else 'uint_2'` (the type id looked up in
+    `TypeDefinition.Definitions`); `none` = the attribute is missing -/
+def arrayCountType (endianAttr : Option String) : String :=
+  if endianAttr = some "big" then "uint_2_be" else "uint_2"
 
 end NasdaqModel.BinCodec
